@@ -44,6 +44,7 @@ static void check_tuple(const std::vector<std::vector<int> >& keys, Cmp cmp, con
     std::vector<std::pair<T*, T*> > seqs(m);
     long N = 0;
     for (size_t i = 0; i < m; ++i) {
+        store[i].reserve(keys[i].size());   // capacity == size: a read behind a sequence is an ASan report
         for (size_t p = 0; p < keys[i].size(); ++p) {
             T v;
             if constexpr (std::is_same<T, int>::value) v = keys[i][p];
